@@ -20,8 +20,12 @@ RULE = ("Hypothesis-generated files encoded with the independent codec cdfspec (
         "definition order, data = arbitrary bit patterns (finite floats), numrecs 0..5; layout features a netCDF writer may "
         "legally produce but PnetCDF does not: arbitrary gaps between header and data, between fixed variables and before the "
         "record section filled with random bytes, stale/zero/saturated vsize fields, empty lists as (tag,0) instead of ABSENT, "
-        "file truncated inside the data area; ~5% headers of 0.25-1 MiB (bulk dimensions / attributes / variables with long "
-        "names) where a chosen field kind is placed at a simulated 256 KiB read-chunk end -8..+4 bytes. Each file is opened "
+        "file truncated inside the data area, the 32/48-byte minimal header; 5% of the files have headers of 0.25-1.3 MiB (bulk "
+        "dimensions / attributes / variables with long names and values; each a pure function of one drawn integer) in which a "
+        "chosen field kind (list tag/nelems, name length/bytes/padding, dim length, attribute type/nelems/values/padding, ndims, "
+        "dimid, type, vsize, begin) is placed so that it ends at / is cut by / starts at the simulated end of the 1st-3rd 256 KiB "
+        "read window (+-1 word), a third of them with an 8-byte CDF-5 field cut by the window end and more than one further "
+        "window behind it. Each file is opened "
         "under 2 drawn configurations (k=1..4 ranks, romio_no_indep_rw, nc_header_read_chunk_size default/64/1024/65536, hash "
         "size / in-place-swap hints, safe mode unset/0/1, read-only/read-write, collective/independent reads); oracle: open "
         "== NC_NOERR and the dumpall record of every rank equals the encoded content (counts, ids, names, types, lengths, "
